@@ -412,6 +412,97 @@ def _m26(P):
 }''')
 
 
+# ---- the expiry goroutine as a WRITER (Property C04: lost-update / ack-lost / ack-not-logged / log-order) ----
+
+@mutant('c1', 'the expiry pass computes on a catalog snapshot taken BEFORE it holds the write token and publishes it')
+def _c1(P):
+    P('engine.go', """		// get transaction
+		txn, err := e.Begin(nil, true)
+		if err != nil {
+			if reporter != nil {
+				reporter(err)
+			}
+			continue
+		}
+""", """		// get transaction
+		stale := e.Catalog()
+		txn, err := e.Begin(nil, true)
+		if err != nil {
+			if reporter != nil {
+				reporter(err)
+			}
+			continue
+		}
+		txn.catalog = stale
+""")
+
+
+@mutant('c2', 'the expiry pass does not take the write token: unlocked transaction, result published directly')
+def _c2(P):
+    P('engine.go', """		// get transaction
+		txn, err := e.Begin(nil, true)
+		if err != nil {
+			if reporter != nil {
+				reporter(err)
+			}
+			continue
+		}
+""", """		// get transaction
+		txn, err := e.Begin(nil, false)
+		if err != nil {
+			if reporter != nil {
+				reporter(err)
+			}
+			continue
+		}
+		if err = txn.Expire(); err == nil && txn.Dirty() {
+			e.mutex.Lock()
+			if err = e.store.Store(txn.Catalog()); err == nil {
+				e.catalog = txn.Catalog()
+			}
+			e.mutex.Unlock()
+		}
+		continue
+""")
+
+
+@mutant('c3', 'Commit releases the write token before the catalog is stored and published')
+def _c3(P):
+    P('engine.go', """	// ensure token is released
+	defer e.token.Release()
+
+	// unset transaction
+	e.txn = nil
+""", """	// unset transaction
+	e.txn = nil
+	e.token.Release()
+	e.mutex.Unlock()
+	time.Sleep(2 * time.Millisecond)
+	e.mutex.Lock()
+""")
+
+
+@mutant('c4', 'update events are logged one position too early (swapped with the previous event)')
+def _c4(P):
+    P('transaction.go', """	// insert event
+	_, err := oplog.Insert(bsonkit.MustConvert(event))
+	if err != nil {
+		return err
+	}
+""", """	// insert event
+	_, err := oplog.Insert(bsonkit.MustConvert(event))
+	if err != nil {
+		return err
+	}
+	if l := oplog.Documents.List; op == "update" && len(l) >= 2 {
+		n := len(l)
+		l[n-1], l[n-2] = l[n-2], l[n-1]
+		oplog.Documents.Index[l[n-1]] = n - 1
+		oplog.Documents.Index[l[n-2]] = n - 2
+	}
+""")
+
+
 # Delay-only mutants. s1 DELAYS the removal within the slack the stream has to grant on a loaded machine
 # (must-be-gone = expired for 10 intervals + 500 ms, re-checked after another 10 intervals + 400 ms;
 # interval-ignored = median latency above 3 intervals + 200 ms): it is expected to be missed and is not part of
